@@ -190,6 +190,56 @@ func genC20() {
 		die("leftOperandToParent not found")
 	}
 	fmt.Fprintf(&b, "/-- `leftOperandToParent`: the whole body -/\ndef rotateBody : String := %s\n\n", leanStrC20(srcOf(fset, lo.Body)))
+	// ---- funcExprNode (spec_func.go): the fields of the compiled node and the whole body of Run.
+	// The compiled tree is shared by every evaluation of the struct type; what a node keeps and where
+	// Run gets its argument buffer from is what `Func.step` (Model/TagexprShared.lean) mirrors.
+	fset2, f2 := parseFile("internal/tagexpr/spec_func.go")
+	var fnFields []string
+	foundStruct := false
+	for _, d := range f2.Decls {
+		gd, ok := d.(*ast.GenDecl)
+		if !ok {
+			continue
+		}
+		for _, sp := range gd.Specs {
+			tsp, ok := sp.(*ast.TypeSpec)
+			if !ok || tsp.Name.Name != "funcExprNode" {
+				continue
+			}
+			st, ok := tsp.Type.(*ast.StructType)
+			if !ok {
+				die("funcExprNode is not a struct")
+			}
+			foundStruct = true
+			for _, fl := range st.Fields.List {
+				ty := srcOf(fset2, fl.Type)
+				if len(fl.Names) == 0 {
+					fnFields = append(fnFields, leanStrC20(ty))
+				}
+				for _, n := range fl.Names {
+					fnFields = append(fnFields, leanStrC20(n.Name+" "+ty))
+				}
+			}
+		}
+	}
+	if !foundStruct {
+		die("funcExprNode not found")
+	}
+	runBody := ""
+	for _, d := range f2.Decls {
+		fd, ok := d.(*ast.FuncDecl)
+		if !ok || fd.Name.Name != "Run" || fd.Recv == nil || len(fd.Recv.List) != 1 {
+			continue
+		}
+		if srcOf(fset2, fd.Recv.List[0].Type) == "*funcExprNode" {
+			runBody = srcOf(fset2, fd.Body)
+		}
+	}
+	if runBody == "" {
+		die("(*funcExprNode).Run not found")
+	}
+	fmt.Fprintf(&b, "/-- `funcExprNode`: the fields of the compiled function-call node -/\ndef funcNodeFields : List String := [\n  %s]\n\n", strings.Join(fnFields, ",\n  "))
+	fmt.Fprintf(&b, "/-- `(*funcExprNode).Run`: the whole body -/\ndef funcRunBody : String := %s\n\n", leanStrC20(runBody))
 	b.WriteString("end Hertz.Gen.Prio\n")
 	write("Prio.lean", b.String())
 }
